@@ -7,6 +7,5 @@ NOT_APPLICABLE = {
     "C09": "loop-point repetition counts are a whole-history property of processEvents/seek over std::list iterators and floating-point time; not expressible as a per-function contract on code CBMC can read (DESIGN.md C07)",
     "C10": _NOTYET, "C12": _NOTYET, "C14": _NOTYET, "C16": _NOTYET,
     "C17": "the statement is about the event sequence delivered by the sequencer and its timing (Route C code); at converter level the only available oracle would be a re-implementation of the converter as specification, i.e. proving one hand-written translation against another (DESIGN.md C17); converter memory safety is handled under C01",
-    "C18": _NOTYET,
     "C20": "a spectral/envelope property of >20000 lines of emulator cores (five of seven in templated C++) integrated over thousands of samples with percent tolerances; no contract on a single function expresses the fundamental of the rendered signal (DESIGN.md C20)",
 }
